@@ -85,6 +85,8 @@ pub enum Op {
     DropRange { lo: Bnd, hi: Bnd },
     Clear,
     Ingest { items: Vec<(u8, IKind)> },
+    /// one ingestion of keys[lo..hi], every value large (separated in a blob tree)
+    IngestRange { lo: u32, hi: u32 },
     Fifo { limit: u64, ttl: Option<u64>, w: Wm },
     Tick { secs: u64 },
     TickMs { ms: u64 },
@@ -120,6 +122,7 @@ impl Op {
             | Op::PutF { .. }
             | Op::DelF { .. }
             | Op::IngestAbandon { .. }
+            | Op::IngestRange { .. }
             | Op::Ingest { .. } => Class::Data,
             Op::Snap | Op::Unsnap => Class::Snap,
             Op::DropRange { .. } | Op::Clear | Op::Fifo { .. } => Class::Special,
@@ -153,6 +156,7 @@ impl Op {
             Op::DropRange { .. } => "DropRange",
             Op::Clear => "Clear",
             Op::Ingest { .. } => "Ingest",
+            Op::IngestRange { .. } => "IngestRange",
             Op::Fifo { .. } => "Fifo",
             Op::Tick { .. } => "Tick",
             Op::TickMs { .. } => "TickMs",
@@ -195,6 +199,7 @@ impl Op {
             Op::DropRange { lo, hi } => format!("DR({lo:?},{hi:?})"),
             Op::Clear => "Clear".into(),
             Op::Ingest { items } => format!("Ing{items:?}"),
+            Op::IngestRange { lo, hi } => format!("IngRange({lo}..{hi})"),
             Op::Fifo { limit, ttl, w: x } => format!("Fifo({limit},{ttl:?},{})", w(x)),
             Op::Tick { secs } => format!("Tick({secs})"),
             Op::TickMs { ms } => format!("Tick({ms}ms)"),
